@@ -243,8 +243,14 @@ ADDENDA3 = {
  'C01': "Third session (C01_gap.py): mix_from with energy balance incl. the H-setter and phases fall-backs, conserve_phases, Stream.sum / + / += / builtin sum, phase views and proxies as inlets, "
         "receivers whose phases match up to case; split_to into multi-phase outlets with old contents and second splits; separate_out of a, of both, of itself, -=; copy_flow with exclude, lists, "
         "ellipsis, foreign IDs; k*s histories; totals also read through mol[i], imol[ID], imol[phase, ID] and phase views; vle=True mixing bounded (mode B). 6 more defects repaired.",
- 'C02': "Third session: see C02_gap.py groups in the evidence (entry points and histories added by the gap analysis).",
- 'C03': "Third session: see C03_gap.py groups in the evidence.",
+ 'C02': "Third session (C02_gap.py): Stream.sum / + / builtin sum / += / -=, the single-inlet shortcut over all receiver/inlet phase pairings, second operations on the same objects "
+        "(read-assign-read, assign twice, mix twice, mix then separate), excess energies, phase views / proxies / links / the receiver's own phase view as target or inlet, conserve_phases "
+        "with a collapsing receiver, mix_from(vle=True) with the flash replaced by its C03/C04 contract (A-flash); real xsolve_T_at_HP/SP, h and Hnet setters and real flash mixing (mode B). "
+        "1 more defect repaired (set_PH with equation-of-state mixtures).",
+ 'C03': "Third session (C03_gap.py): second and later VLE calls on one stream (remembered chemical sets and index lists), the .vle/.lle/.sle accessors of single-phase streams and of "
+        "MultiStreams lacking a phase, different kinds of calculation in succession, Stream.vlle and the class VLLE (pooling + VLE/LLE steps), mix_from(vle=True)/Stream.sum(vle=True) with "
+        "reduce_phases; three former ASSUMPTIONS are now proved on thermosteam's own code: the LLE solver stays in its box (solve_lle_liquid_mol, pseudo_equilibrium and its loops, shgo/DE bounds), "
+        "phase_fraction/as_valid_fraction/Rachford-Rice return a value in [0,1], solve_vle_vapor_mol_shgo with only scipy's shgo assumed; real histories (mode B).",
  'C04': "Third session: see C04_gap.py groups in the evidence.",
  'C05': "Third session (C05_gap.py): KineticReaction, Reaction.conversion, reset_chemicals of sets/items, items and slices applied through __call__, nested ReactionSystem, reactant_flux, "
         "CHECK_FEASIBILITY=False, 2-d mass views, correct_atomic_balance; histories on real balanced reactions (mode B: every operation sequence of length <= 2-3 over 14 programs). 3 more defects repaired.",
@@ -273,7 +279,11 @@ ADDENDA3 = {
  'C13': "Third session (C13_gap.py, C13_more.py): mass-view channel after every step, re-linking to a third stream, successive copy_like/set_data chains on linked targets, StreamData reuse, "
         "streams whose class changed in their history, phase views as originals/partners/pickled objects, pickles of Series/System/Item reactions and packages with groups/aliases/"
         "IdealThermo (mode B), pickles of customised chemicals while the stock chemical of the same ID is in the chemical cache (mode B). 3 more defects repaired; F-C13-K1a-f printed as KNOWN-FINDING.",
- 'C14': "Third session: see C14_gap.py groups in the evidence.",
+ 'C14': "Third session (C14_gap.py): phase views read after structural mutators of the parent (phases=, _reset_thermo, link_with, unlink, in-place expansion, collapse and re-expansion, "
+        "proxy) against a fresh stream built from the PARENT's row, T, P and package; streams produced from a stream with a filled memo (copy, copy(thermo=), sum, +, -x, *, /, from_data, "
+        "pickle); about 85 more mutators and variants (mass/volumetric setters, h/Hnet/S setters incl. fall-backs, += -= /=, mix_from with energy balance and >= 2 inlets, separate_out, "
+        "split_to, copy_flow variants, thermal_condition channels, reset_flow, temporary()); vle/lle/vlle/mix_from(vle=True)/receive_vent/ivol writes on real models incl. the solver state "
+        "kept inside a Peng-Robinson mixture (mode B, oracle on an independent twin package).",
  'C15': "Third session: see C15_gap.py groups in the evidence.",
  'C16': "Third session (C16_gap.py): the arrays derived by the REAL GroupActivityCoefficients.__new__ (incl. get_interaction fall-backs, Q = 0 sub-groups, identical group sets) now in mode S for "
         "the limit and permutation sentences; cache/pickle/copy/subset/regroup histories; ideal models after the caller overwrote a returned array; read-only and strided inputs. 1 more defect repaired.",
